@@ -10,8 +10,10 @@ VERIF = os.path.dirname(os.path.dirname(os.path.abspath(__file__)))
 SRC = os.environ.get("VOTEKIT_SRC", "/repo/src")
 SHIMS = os.path.join(VERIF, "harness", "shims")
 SPEC = os.path.join(VERIF, "spec")
-OUT = os.path.join(VERIF, "out")
-EVID = os.path.join(VERIF, "evidence")
+# VERIF_OUT / VERIF_EVID: only the self-test tools (mutation sweep, seeded-change evaluation) redirect scratch and evidence,
+# so that they can run next to a real check; the registered commands never set them
+OUT = os.environ.get("VERIF_OUT") or os.path.join(VERIF, "out")
+EVID = os.environ.get("VERIF_EVID") or os.path.join(VERIF, "evidence")
 RAT_BOUND = 20000  # logged numerators / denominators above this are outside TLC's exact range
 
 os.environ.setdefault("VOTEKIT_VERIF", "1")
